@@ -164,6 +164,27 @@ func main() {
 				}
 			}
 		}
+		// period-boundary neighbours at large magnitudes: T = k*128 s + delta for period numbers k up to
+		// the largest a time.Duration can hold (a float64 detour such as int(T.Seconds())/128 is exact
+		// for small T and rounds k*128 s - 1 ns up to the next period once T exceeds ~2^24 s; real
+		// GPS-era beacon times are ~2^30 s).  Exhaustive list in both tiers for the hopping bands.
+		{
+			ks := []int64{1, 1000, 1<<17 - 1, 1 << 17, 1<<17 + 1, 1 << 20, 1<<23 - 1, 1 << 23, 9404518, 10156250, 11275970, 1<<24 - 1, 1 << 24, 1<<24 + 1, 1 << 25, 72057593, 72057594}
+			deltas := []time.Duration{-time.Second, -time.Millisecond, -time.Microsecond, -200, -119, -100, -2, -1, 0, 1, time.Second}
+			hopping := c.Name == band.US915 || c.Name == band.AU915 || c.Name == band.CN470
+			if !hopping {
+				ks = []int64{9404518, 72057594}
+				deltas = []time.Duration{-1, 0}
+			}
+			for ki, k := range ks {
+				for _, dl := range deltas {
+					add(0x0314cf36, time.Duration(k)*p+dl, "ping-slot-period-boundary")
+					if hopping {
+						add(das[(ki+3)%len(das)], time.Duration(k)*p+dl, "ping-slot-period-boundary")
+					}
+				}
+			}
+		}
 		for i, bt := range neg {
 			// a negative time since the GPS epoch is outside the property; kept to pin Go's
 			// truncating % in the model
@@ -185,6 +206,7 @@ func main() {
 
 	s.Exhaustive("RX1 data-rate: 56 configurations x uplink DR -2..16 x RX1 offset -2..9")
 	s.Exhaustive("GetDefaults: 56 configurations")
+	s.Exhaustive("ping-slot period boundaries (US915, AU915, CN470): 17 period numbers k from 1 to the largest a Duration holds x 11 offsets (-1 s .. -1 ns, 0, +1 ns, +1 s) around k*128 s x 2 DevAddrs")
 	s.Exhaustive("RX1 channel: 56 configurations x every channel index -2..n+2 and every uplink frequency")
 	if err := s.Finish(); err != nil {
 		fmt.Fprintln(os.Stderr, err)
